@@ -868,16 +868,188 @@ def regressions(ctx):
     tie_phase(ctx, batch)
 
 
+# ---------------------------------------------------------------- primary keys that contain a relationship attribute (oracle only)
+
+def generic_snapshot(cache, objs):
+    """the whole session by introspection, independent of any schema description: every registered object (status, pk, _save_pos_,
+    write bits, every value / SetData), every index of cache.indexes, objects_to_save, modified_collections, and the objects of
+    cache.objects / index entries that are NOT registered (an object whose constructor raised must not be there)"""
+    def I(x):
+        for i, o in enumerate(objs):
+            if o is x: return i
+        return -1
+    def C(v):
+        if isinstance(v, core.Entity): return ['obj', I(v)]
+        if isinstance(v, tuple): return [C(x) for x in v]
+        if isinstance(v, core.SetData):
+            return {'items': sorted(I(x) for x in v), 'added': sorted(I(x) for x in (v.added or ())), 'removed': sorted(I(x) for x in (v.removed or ())), 'count': v.count}
+        return v
+    out = {'objs': [], 'indexes': {}, 'to_save': [None if o is None else I(o) for o in cache.objects_to_save],
+           'modcoll': {a.name + '@' + a.entity.__name__: sorted(I(o) for o in st) for a, st in cache.modified_collections.items() if st},
+           'strangers': sorted(repr(type(o).__name__) + ':' + str(o._status_) for o in cache.objects if I(o) < 0)}
+    for o in objs:
+        out['objs'].append({'status': o._status_, 'pk': C(o._pkval_), 'save_pos': o._save_pos_, 'wbits': o._wbits_, 'in_cache': o in cache.objects,
+                            'vals': {a.name: C(v) for a, v in sorted((o._vals_ or {}).items(), key=lambda p: p[0].name)}})
+    for key, d in cache.indexes.items():
+        name = '+'.join(a.name for a in key) + '@' + key[0].entity.__name__ if isinstance(key, tuple) else key.name + '@' + key.entity.__name__
+        ent = sorted(([C(k), I(o)] for k, o in d.items()), key=repr)
+        if ent: out['indexes'][name] = ent
+    return out
+
+
+def generic_diff(b, a):
+    cats = []
+    for i, (x, y) in enumerate(zip(b['objs'], a['objs'])):
+        for f in x:
+            if x[f] != y[f]: cats.append('value' if f == 'vals' else f)
+    if len(b['objs']) != len(a['objs']): cats.append('objects')
+    if b['indexes'] != a['indexes']: cats.append('index')
+    for f in ('to_save', 'modcoll', 'strangers'):
+        if b[f] != a[f]: cats.append('cache.objects' if f == 'strangers' else f)
+    return sorted(set(cats))
+
+
+def relpk_classes(kind):
+    """entities whose primary key contains a relationship attribute"""
+    db = Database()
+    dp = {'id': PrimaryKey(int), 'child': Optional('C', reverse='p'), 'tag': Optional(int)}
+    dq = {'id': PrimaryKey(int), 'cs': Set('C', reverse='q')}
+    if kind == 'single':          # C.p is the whole primary key (one-to-one)
+        dc = {'p': PrimaryKey('P', reverse='child'), 'q': Optional('Q', reverse='cs'), 'label': Optional(int)}
+    elif kind == 'pair':          # PrimaryKey(p, no): one-to-one partner + int
+        dc = {'p': Required('P', reverse='child'), 'no': Required(int), 'q': Optional('Q', reverse='cs'), 'label': Optional(int)}
+        dc['_indexes_'] = [core.Index(dc['p'], dc['no'], is_pk=True)]
+    elif kind == 'two-first':     # PrimaryKey(p, q): the one-to-one partner is linked first
+        dc = {'p': Required('P', reverse='child'), 'q': Required('Q', reverse='cs'), 'label': Optional(int)}
+        dc['_indexes_'] = [core.Index(dc['p'], dc['q'], is_pk=True)]
+    else:                         # PrimaryKey(q, p): the many-to-one parent is linked first, then the one-to-one partner fails
+        dc = {'q': Required('Q', reverse='cs'), 'p': Required('P', reverse='child'), 'label': Optional(int)}
+        dc['_indexes_'] = [core.Index(dc['q'], dc['p'], is_pk=True)]
+    P = type('P', (db.Entity,), dp); Q = type('Q', (db.Entity,), dq); Cc = type('C', (db.Entity,), dc)
+    db.bind('sqlite', ':memory:'); db.generate_mapping(create_tables=True)
+    return db, P, Q, Cc
+
+
+def relpk_run(kind, ops):
+    """replays a history; returns (step index, error class, categories) of the first failing call that changed the session, or None"""
+    db, P, Q, Cc = relpk_classes(kind)
+    objs = []
+    bad = None
+    relpk_run.errors = errors = []
+    with db_session:
+        cache = db._get_cache()
+        for i, op in enumerate(ops):
+            refs = [v for f, v in (op[1].items() if op[0] == 'C' else []) if f in ('p', 'q') and v is not None] + \
+                   ([op[1]] if op[0] in ('delete', 'set') else []) + ([op[3]] if op[0] == 'set' and op[2] in ('p', 'q', 'child') and op[3] is not None else [])
+            if any(r >= len(objs) for r in refs): continue      # an earlier constructor failed: the object this call names does not exist
+            before = generic_snapshot(cache, objs)
+            err = None
+            try:
+                k = op[0]
+                if k == 'P': objs.append(P(id=op[1]))
+                elif k == 'Q': objs.append(Q(id=op[1]))
+                elif k == 'C':
+                    kw = dict(op[1])
+                    for f in ('p', 'q'):
+                        if kw.get(f) is not None: kw[f] = objs[kw[f]]
+                    objs.append(Cc(**kw))
+                elif k == 'flush': flush()
+                elif k == 'delete': objs[op[1]].delete()
+                elif k == 'set': setattr(objs[op[1]], op[2], objs[op[3]] if op[2] in ('p', 'q', 'child') and op[3] is not None else op[3])
+            except Exception as e:
+                err = type(e).__name__
+            if err is not None: errors.append((op[0], err))
+            if err is not None and op[0] != 'flush':
+                cats = generic_diff(before, generic_snapshot(cache, objs))
+                if cats: bad = (i, err, cats); break
+            if err is not None and op[0] == 'flush': break
+        rollback()
+    db.disconnect()
+    return bad
+
+
+def relpk_phase(ctx, rng, nhist):
+    """constructors (and other calls) on entities whose primary key contains a relationship attribute: _get_from_identity_map_ links the
+    primary-key attributes itself, before Entity.__init__ handles the others.  Before/after oracle on the real objects only (the Lean model
+    has int primary keys)."""
+    directed = [('pair', [('P', 1), ('C', {'p': 0, 'no': 1}), ('C', {'p': 0, 'no': 2})]),
+                ('pair', [('P', 1), ('C', {'p': 0, 'no': 1}), ('flush',), ('C', {'p': 0, 'no': 2, 'label': 5})]),
+                ('single', [('P', 1), ('P', 2), ('delete', 1), ('C', {'p': 1})]),
+                ('two-second', [('P', 1), ('Q', 1), ('Q', 2), ('C', {'p': 0, 'q': 1}), ('C', {'p': 0, 'q': 2})])]
+    hists = list(directed)
+    for _ in range(nhist):
+        kind = rng.choice(['single', 'pair', 'pair', 'two-first', 'two-second'])
+        ops, ents = [], []           # ents[i] = 'P' | 'Q' | 'C' for created (attempted-successful not known in advance: replay decides)
+        n = {'P': 0, 'Q': 0}
+        def idx_of(e): return [i for i, x in enumerate(ents) if x == e]
+        for step in range(rng.choice([5, 7, 9])):
+            r = rng.random()
+            if step < 2 or r < 0.2:
+                e = 'P' if (step == 0 or rng.random() < 0.6) else 'Q'
+                n[e] += 1; ops.append((e, n[e] if rng.random() < 0.9 else 1)); ents.append(e)
+            elif r < 0.6 and idx_of('P'):
+                kw = {'p': rng.choice(idx_of('P'))}
+                if kind in ('two-first', 'two-second'):
+                    if not idx_of('Q'): continue
+                    kw['q'] = rng.choice(idx_of('Q'))
+                elif idx_of('Q') and rng.random() < 0.5: kw['q'] = rng.choice(idx_of('Q'))
+                if kind == 'pair': kw['no'] = rng.choice([1, 1, 2, 3])
+                if rng.random() < 0.4: kw['label'] = rng.choice([0, 1])
+                ops.append(('C', kw)); ents.append('C')
+            elif r < 0.7: ops.append(('flush',))
+            elif r < 0.85 and ents: ops.append(('delete', rng.randrange(len(ents))))
+            elif idx_of('C'): ops.append(('set', rng.choice(idx_of('C')), 'label', rng.choice([0, 1, None])))
+        hists.append((kind, ops))
+    for kind, ops in hists:
+        # object numbering follows successful constructor calls: a history whose earlier constructor fails is renumbered by dropping it
+        ops = list(ops)
+        while True:
+            try: bad = relpk_run(kind, ops)
+            except IndexError: bad = 'renumber'
+            except Exception as e:
+                ctx.count('relpk:history-crashed:' + type(e).__name__); bad = None
+            break
+        ctx.case({'relpk': kind, 'ops': ops}, nontrivial=True, kind='relpk-history')
+        for opk, e in getattr(relpk_run, 'errors', []): ctx.count('relpk:failing-call:%s:%s:%s' % (kind, opk, e))
+        if bad == 'renumber' or bad is None:
+            ctx.count('relpk:histories-unchanged' if bad is None else 'relpk:history-skipped'); continue
+        i, err, cats = bad
+        small = ops[:i + 1]
+        changed = True
+        while changed:                       # greedy shrink: drop calls that are neither constructors nor needed
+            changed = False
+            for j in range(len(small) - 2, -1, -1):
+                if small[j][0] in ('P', 'Q', 'C'): continue
+                cand = small[:j] + small[j + 1:]
+                try: b2 = relpk_run(kind, cand)
+                except Exception: b2 = None
+                if b2 is not None and b2 != 'renumber' and b2[0] == len(cand) - 1 and b2[1:] == (err, cats):
+                    small = cand; changed = True; break
+        ctx.count('oracle:relpk-state-changed')
+        ctx.violation('a call that raised left the session changed (primary key with a relationship attribute)',
+                      {'relpk_kind': kind, 'ops': [list(o) for o in small]}, observed={'error': err, 'changed': cats},
+                      expected='observation after the failing call == observation before it',
+                      key='failed-call-changed-session:relpk-%s/%s/%s/%s' % (kind, small[-1][0], err, '+'.join(cats)))
+
+
 def run(ctx):
     rng = ctx.rng
     regressions(ctx)
+    relpk_phase(ctx, rng, ctx.scale(60, 1500))
     batch = oracle_phase(ctx, rng, ctx.scale(150, 3000), ctx.scale(22, 30))
     tie_phase(ctx, batch)
 
 
 def replay(ctx, data):
     inp = data.get('input') or {}
-    if 'schema' in inp and 'ops' in inp:
+    if 'relpk_kind' in inp:
+        ops = [tuple(o) for o in inp['ops']]
+        bad = relpk_run(inp['relpk_kind'], ops)
+        ctx.case({'replay': True}, kind='replay')
+        if bad is not None:
+            ctx.violation('a call that raised left the session changed (primary key with a relationship attribute)', inp,
+                          observed={'error': bad[1], 'changed': bad[2]}, key=data.get('key'))
+    elif 'schema' in inp and 'ops' in inp:
         v = first_change(inp['schema'], inp['ops'])
         ctx.case({'replay': True}, kind='replay')
         if v is not None: report_change(ctx, inp['schema'], inp['ops'], v[0], v[1], v[2])
